@@ -74,34 +74,31 @@ theorem flatMap_congr_mem {α β : Type} (l : List α) (f g : α → List β) (h
     simp only [List.flatMap_cons]
     rw [hfg a (List.mem_cons_self ..), ih (fun x hx => hfg x (List.mem_cons_of_mem _ hx))]
 
-theorem skipWrapperAux_suffix (fwa : WrapOpts) (b : Bool) (l : List String) : ∃ j, skipWrapperAux fwa b l = l.drop j := by
-  induction l generalizing b with
+theorem skipWrapperAux_suffix (fwa : WrapOpts) (b dur : Bool) (l : List String) : ∃ j, skipWrapperAux fwa b dur l = l.drop j := by
+  induction l generalizing b dur with
   | nil => exact ⟨0, by cases b <;> rfl⟩
   | cons t ts ih =>
     cases b with
     | true =>
-      obtain ⟨j, hj⟩ := ih false
+      obtain ⟨j, hj⟩ := ih false dur
       exact ⟨j + 1, by simpa [skipWrapperAux] using hj⟩
     | false =>
       unfold skipWrapperAux
       split
-      · obtain ⟨j, hj⟩ := ih false
+      · obtain ⟨j, hj⟩ := ih false false
         exact ⟨j + 1, by simpa using hj⟩
       · split
-        · obtain ⟨j, hj⟩ := ih false
+        · obtain ⟨j, hj⟩ := ih true dur
           exact ⟨j + 1, by simpa using hj⟩
         · split
-          · obtain ⟨j, hj⟩ := ih true
+          · obtain ⟨j, hj⟩ := ih false dur
             exact ⟨j + 1, by simpa using hj⟩
           · split
-            · obtain ⟨j, hj⟩ := ih false
-              exact ⟨j + 1, by simpa using hj⟩
-            · split
-              · exact ⟨1, by simp⟩
-              · exact ⟨0, by simp⟩
+            · exact ⟨1, by simp⟩
+            · exact ⟨0, by simp⟩
 
 theorem skipWrapperArgs_suffix (fwa : WrapOpts) (l : List String) : ∃ j, skipWrapperArgs fwa l = l.drop j :=
-  skipWrapperAux_suffix fwa false l
+  skipWrapperAux_suffix fwa false fwa.duration l
 
 /-- a command none of whose word suffixes the new rule matches keeps its verdict *and reason* -/
 theorem simpleCmd_unmatched (rec : Rec) (n : Nat) (words : List String) (cwd : String) (r : Bool)
